@@ -1,15 +1,26 @@
 """C10 - all tree-comparison implementations report the same changes.
 
-Differential monitor (I8): for generated tree pairs the change set of the optimiser that
+Differential monitor (I8): for generated tree pairs the change list of the optimiser that
 `InterTree.get(source, target)` really selects (InterDirStateTree, InterCHKRevisionTree,
-InterGitTrees; the class is recorded) is compared, as a set of normalised TreeChange tuples,
-with the generic inventory walk `InterInventoryTree(source, target)`, for every
-(specific_files, include_unchanged, want_unversioned, require_versioned) combination tried.
-Independently of any twin, every reported change list is judged against the two trees as
-read through the public Tree API (the model oracle): applying the unfiltered changes to the
-source must give the target; a filtered change list applied to the source must give a valid
-tree (every new parent present, no two entries at one place) and must contain every change at
-or below a named path.
+InterGitTrees; the class is recorded and floors make a run without fast paths inconclusive) is
+compared, as a set of normalised TreeChange tuples, with the generic inventory walk
+`InterInventoryTree(source, target)`, for every (specific_files, include_unchanged,
+want_unversioned, require_versioned) combination tried.
+  * unfiltered: the two sets must be equal;
+  * filtered: the entries at or below a named path (old or new path) must be equal; entries outside
+    the named paths are dragged in by each implementation for consistency - which ones is judged
+    by the closure oracle, a disagreement there is only counted (histogram `noncore-diff:*`);
+  * unversioned entries are compared by the topmost unversioned ancestor, inside the named paths;
+  * outcomes (exception class) must agree.
+Independently of any twin, every change list (also the generic one, also git) is judged against
+the two trees as read through the public Tree API: each side of each entry must describe the item
+as it is in that tree; applying the unfiltered list to the source must give the target, and every
+difference must be reported; a filtered list applied to the source must give a tree in which
+every new parent exists, every really changed entry's new parent is reported or unchanged, and
+every change at or below a named path is present; git: path based, the filtered list must be a
+subset of the unfiltered one and complete inside the filter, no file may end up with entries below it.
+(`InterTree` itself has no iter_changes - it raises NotImplementedError - so the generic twin is
+InterInventoryTree; git trees have no twin and are judged by the model oracles only.)
 """
 import os
 
@@ -26,18 +37,22 @@ RULE = ("case = one generated history (2-4 commits + uncommitted delta) in a bzr
         "(pending-merge parent, working tree), (older revision, working tree), revision-tree pairs incl. reversed and null:; per pair 4 unfiltered flag settings "
         "+ 6 (quick) / 14 (thorough) filters of <= 3 paths x 2-3 flag settings; one evaluation = one (pair, filter, flags) execution judged; "
         "non-trivial = the pair's change set has >= 2 entries incl. a rename/reparent/kind change/removal; distinct = pair kind + change-set shape + filter shape + flags")
-CASES = {"quick": 64, "thorough": 1600}
+CASES = {"quick": 48, "thorough": 1600}
 BUDGET_S = {"quick": 50, "thorough": 800}
-MIN_EVALS = {"quick": 1500, "thorough": 20000}
-FLOORS = {"selected:InterDirStateTree": 40, "selected:InterCHKRevisionTree": 40, "selected:InterGitTrees": 40,
-          "diff_dirstate_vs_generic": 300, "diff_chk_vs_generic": 300, "apply_law": 200, "closure_law": 300,
-          "filter_complete": 300, "git_filter_subset": 100}
+MIN_EVALS = {"quick": 800, "thorough": 20000}
+FLOORS = {"selected:InterDirStateTree": 15, "selected:InterCHKRevisionTree": 15, "selected:InterGitTrees": 15,
+          "diff_dirstate_vs_generic": 150, "diff_chk_vs_generic": 150, "apply_law": 100, "closure_law": 200,
+          "filter_complete": 200, "git_filter_subset": 60, "diff_unversioned": 40}
 ASSUMPTIONS = [
     "the trees as read through iter_entries_by_dir / kind / get_file_text / is_executable / get_symlink_target are taken as the truth the change lists are judged against (C09 checks those readers against the model)",
     "executable flags are compared for files only (the flag of a directory or symlink carries no meaning)",
     "git: paths stand for identities, directories are implied by their files, a rename may be reported as rename or as delete+add, changed_content=True is not judged (mode changes set it)",
     "specific_files=[] is not exercised (None means no filter; the meaning of an empty list is not stated)",
     "entries below a working-tree directory that is missing or no longer a directory on disk are not judged by the model oracle (only by the differential)",
+    "with a filter, entries outside the named paths may differ between implementations (counted as noncore-diff); a reported entry landing on a place still occupied "
+    "by an unreported source entry is counted (noncore:place-taken-twice), not judged: the statement speaks of parents only",
+    "the same entry listed twice in one change list is counted (duplicate-entries), not judged: the lists are compared as sets",
+    "PathsNotVersionedError: only the class is compared, not the list of paths in the message",
 ]
 
 W_COMMIT = {"mkfile": 6, "mkdir": 4, "symlink": 2, "add": 12, "edit": 6, "chmod": 3, "rename": 10, "remove": 2, "unversion": 1, "kindchange": 1}
@@ -291,7 +306,7 @@ def _inside_any(spec, path):
     return False
 
 
-def _judge_git(ctx, S, T, res, pk, spec, flags, fail, full_unchanged):
+def _judge_git(ctx, S, T, res, pk, spec, flags, fail, full_unchanged, disk):
     """Path based.  Directories are implied; S/T: path -> entry."""
     changes = res[1]
     Sf = {p: (e["kind"], _x(e["kind"], e["exec"])) for p, e in S.items() if e["stored_kind"] != "directory"}
@@ -336,7 +351,12 @@ def _judge_git(ctx, S, T, res, pk, spec, flags, fail, full_unchanged):
             S2[p] = v
         if S2 != Tf:
             bad = sorted(repr((p, S2.get(p), Tf.get(p))) for p in set(S2) | set(Tf) if S2.get(p) != Tf.get(p))
-            fail("apply:unfiltered-not-target", "applying the unfiltered changes to the source does not give the target: %s" % bad[:3], None)
+            stale = [p for p in S2 if p not in Tf]
+            if stale and all(p in disk for p in stale) and flags["want_unversioned"] and len(stale) == len(bad):
+                fail("apply:no-longer-versioned-but-kept-on-disk:removal-not-reported",
+                     "%r are versioned in the source, unversioned (but still on disk) in the target, and no change reports them" % (sorted(stale)[:4],), None)
+            else:
+                fail("apply:unfiltered-not-target", "applying the unfiltered changes to the source does not give the target: %s" % bad[:3], None)
         newp = {c[1][1] for c in changes if c[3][1]}
         for p in set(Sf) & set(Tf):
             if p in newp:
@@ -486,7 +506,9 @@ def _differential(ctx, cls, r1, r2, spec, flags, S, T, pk, detail_base):
                 x = x or next(c for c in ra if c[0] == fid)
                 y = y or next(c for c in rb if c[0] == fid)
             if x is not None and y is not None:
-                k = "field:" + "+".join(FIELDS[i] for i in range(9) if x[i] != y[i])
+                df = [FIELDS[i] for i in range(9) if x[i] != y[i]]
+                # name the mechanism by the leading field (an entry wrongly called added differs in all the others too)
+                k = "field:" + ("versioned" if "versioned" in df else "path" if "path" in df else "+".join(df))
             elif x is not None:
                 k = "extra-in-optimiser:" + _role(x, others, spec)
             else:
@@ -545,6 +567,18 @@ def _swap(rng, wt, w):
 
 def _delta(ctx, rng, wt, names, nops, weights, log):
     w = gen.random_delta(rng, wt, names, nops, weights, log)
+    if rng.random() < 0.3:
+        # retarget a versioned symlink (the shared generator never changes a link's target)
+        links = sorted(w.path(i) for i, e in w.ents.items() if i != model.ROOT and e.kind == "symlink" and not e.missing and not gen._under_missing(w, i))
+        if links:
+            q = rng.choice(links)
+            ap = os.path.join(wt.basedir, q)
+            if os.path.islink(ap):
+                tgt = os.readlink(ap) + "_x"
+                os.unlink(ap)
+                os.symlink(tgt, ap)
+                ctx.hist("shape:symlink-retarget")
+                log.append({"op": "retarget", "path": q, "target": tgt})
     if rng.random() < 0.35:
         try:
             sw = _swap(rng, wt, w)
@@ -682,7 +716,9 @@ def _pair(ctx, rng, pk, src, tgt, tgt_is_wt, git, disk, revpair, log):
         twin = ("diff_dirstate_vs_generic" if cls == "InterDirStateTree" else "diff_chk_vs_generic" if cls == "InterCHKRevisionTree" else "diff_other_vs_generic")
     universe = {e["path"] for e in S.values()} | {e["path"] for e in T.values()} | (set(disk) if tgt_is_wt else set())
     universe.discard("")
-    universe |= {"nosuch", "d1/nosuch"}
+    universe.add("nosuch")
+    if disk.get("d1", ("",))[0] != "symlink":  # (below a self-referencing symlink lstat says ELOOP: not this property's business)
+        universe.add("d1/nosuch")
     nfil = 6 if ctx.tier == "quick" else 14
     combos = [(None, f) for f in _flag_sets(rng, 8, tgt_is_wt) if not f["require_versioned"]]
     for spec in _filters(rng, universe, nfil):
@@ -746,7 +782,7 @@ def _pair(ctx, rng, pk, src, tgt, tgt_is_wt, git, disk, revpair, log):
                 rf = _run(inter, git, include_unchanged=True, want_unversioned=flags["want_unversioned"], require_versioned=False)
                 if rf[0] == "ok":
                     fu = full_cache[key] = rf[1]
-            _judge_git(ctx, S, T, r1, pk, spec, flags, fail, fu)
+            _judge_git(ctx, S, T, r1, pk, spec, flags, fail, fu, disk)
         else:
             _judge_bzr(ctx, S, T, r1, pk, spec, flags, fail)
         if flags["want_unversioned"]:
@@ -760,7 +796,10 @@ def _pair(ctx, rng, pk, src, tgt, tgt_is_wt, git, disk, revpair, log):
         interesting = len(base) >= 2 and any(t in s for s in base for t in ("renamed", "reparented", "kindchange", "removed", "missing"))
         ctx.note((pk, cls, sh, None if spec is None else [("in" if q in {e["path"] for e in T.values()} else "out") for q in spec], sorted(flags.items())),
                  nontrivial=interesting,
-                 sample={"pair": pk, "class": cls, "specific_files": spec, "flags": flags, "changes": [_j(c) for c in r1[1][:8]]} if ctx.rng.random() < 0.002 else None)
+                 sample={"pair": pk, "class": cls, "specific_files": spec, "flags": flags, "changes": [_j(c) for c in r1[1][:8]]}
+                 if (spec is not None and len(r1[1]) >= 2 and not getattr(ctx, "_c10_sampled", False)) else None)
+        if spec is not None and len(r1[1]) >= 2:
+            ctx._c10_sampled = True
 
 
 def case(ctx):
